@@ -366,6 +366,23 @@ pub fn run(ctx: &Ctx) {
     ctx.run_list("boundary_sweep", &cases, true, sweep_oracle);
     let tcases = tsweep_cases(seed);
     ctx.run_list("transport_sweep", &tcases, true, tsweep_oracle);
+    // dense: every transport message length up to 2400 (thorough 9000), genuine and garbage, read
+    // into exact / +1 / +15 / ample buffers, on the default AND the ring backend
+    {
+        let suites = all_suites();
+        let mut dense = Vec::new();
+        for len in 0..=ctx.tier.pick(2400usize, 9000) {
+            for (bi, backend) in [crate::instr::Backend::Default, crate::instr::Backend::RingFirst].into_iter().enumerate() {
+                let suite = *suites.iter().filter(|s| ring_covers(**s)).nth((len + bi) % 4).unwrap();
+                let mut spec = SessionSpec::simple(HsName { pattern: ["NN", "N"][len % 2].to_string(), psks: vec![] }, suite, mix(seed, 91));
+                spec.backend_i = backend;
+                spec.backend_r = backend;
+                let slack = [0usize, 1, 15, 66000][(len / 2 + bi) % 4];
+                dense.push(TSweepCase { spec, stateless: len % 3 == 0, write: false, len, buf: len.saturating_sub(16) + slack, nonce: 0, genuine: len % 5 != 0 });
+            }
+        }
+        ctx.run_list("dense_lengths_both_backends", &dense, true, tsweep_oracle);
+    }
     ctx.run_prop("op_sequences", ctx.tier.pick(40_000, 600_000), || ops::script_strategy(24), script_oracle);
     ctx.run_prop(
         "parse_strings",
@@ -390,7 +407,7 @@ pub fn run(ctx: &Ctx) {
 pub fn replay(ctx: &Ctx, sub: &str, case: &serde_json::Value, origin: &str) -> bool {
     match sub {
         "boundary_sweep" => ctx.replay_case::<SweepCase, _>(sub, case, sweep_oracle, origin),
-        "transport_sweep" => ctx.replay_case::<TSweepCase, _>(sub, case, tsweep_oracle, origin),
+        "transport_sweep" | "dense_lengths_both_backends" => ctx.replay_case::<TSweepCase, _>(sub, case, tsweep_oracle, origin),
         "parse_strings" => ctx.replay_case::<ParseCase, _>(sub, case, parse_oracle, origin),
         "known_p256_invalid_scalar" => ctx.replay_case::<P256ScalarCase, _>(sub, case, p256_scalar_oracle, origin),
         "fuzz_bytes" => {
